@@ -409,3 +409,7 @@ def check(ctx: Ctx) -> None:
         ob.require(nset >= 1, "setcallback calls not found")
 
     check_terminal_frame(ctx, "C10.g")
+    # the endmarker of a remote_exec channel is triggered by the worker closing it when the code ends
+    from .C03 import check_autoclose
+    check_autoclose(ctx, "C10.i")
+
